@@ -223,7 +223,7 @@ Ltac nil_incl := solve [intros ? []].
 Lemma exec_result (X : handle) (o : op) (h h' : heap) k Y :
   exec X o h = (h', Ok (Some (k, Y))) -> k = op_kind o /\ result_spec h h' X k Y.
 Proof.
-  destruct X as [g|gs|t g|mt ts rs|insts]; destruct o; simpl; intros E; try discriminate E; inv_bind;
+  destruct X as [g|gs|t g|mt ts rs|insts|al]; destruct o; simpl; intros E; try discriminate E; inv_bind;
     try (unfold fail in E; discriminate E).
   - (* HG copy *)
     ro_clean. alloc_inv. simpl in E. inv_bind.
@@ -298,7 +298,7 @@ Lemma exec_copylike_some (X : handle) (o : op) (h h' : heap) r :
 Proof.
   intros Hk E. destruct r as [[k Y]|].
   - apply exec_result in E. destruct E as [-> _]. eauto.
-  - exfalso. destruct X as [g|gs|t g|mt ts rs|insts]; destruct o; simpl in *; try congruence;
+  - exfalso. destruct X as [g|gs|t g|mt ts rs|insts|al]; destruct o; simpl in *; try congruence;
       try (unfold fail in E; discriminate E); inv_bind; try (unfold fail in E; discriminate E).
     + alloc_inv. simpl in E. inv_bind.
     + alloc_inv. simpl in E. inv_bind.
@@ -352,9 +352,9 @@ Qed.
 Lemma exec_le3 (X : handle) o h h' r : exec X o h = (h', r) -> le3 h h'.
 Proof. intros E. eapply framed_le3; [apply (exec_framed X o) | exact E]. Qed.
 
-Lemma step_wf h fam ko h' fam' r : wf h fam -> step (h, fam) ko = ((h', fam'), r) -> wf h' fam'.
+Lemma step_plain_wf h fam ko h' fam' r : wf h fam -> step_plain (h, fam) ko = ((h', fam'), r) -> wf h' fam'.
 Proof.
-  intros [W1 W2]. unfold step.
+  intros [W1 W2]. unfold step_plain.
   destruct (nth_error fam (fst ko)) as [[[g tg] X]|] eqn:EN.
   2:{ intros E; inversion E; subst; split; auto. }
   destruct (exec X (snd ko) h) as [h1 [[[kind Y]|]|e]] eqn:EX; intros E; inversion E; subst; clear E;
@@ -408,21 +408,21 @@ Qed.
 Definition same_on {A} (s s' : list A) (ls : list loc) : Prop :=
   forall l, In l ls -> nth_error s' l = nth_error s l.
 
-Lemma step_keeps_entry h fam ko h' fam' r i e :
-  step (h, fam) ko = ((h', fam'), r) -> nth_error fam i = Some e -> nth_error fam' i = Some e.
+Lemma step_plain_keeps_entry h fam ko h' fam' r i e :
+  step_plain (h, fam) ko = ((h', fam'), r) -> nth_error fam i = Some e -> nth_error fam' i = Some e.
 Proof.
-  unfold step. destruct (nth_error fam (fst ko)) as [[[g tg] X]|].
+  unfold step_plain. destruct (nth_error fam (fst ko)) as [[[g tg] X]|].
   2:{ intros E; inversion E; subst; auto. }
   destruct (exec X (snd ko) h) as [h1 [[[kind Y]|]|err]]; intros E; inversion E; subst; auto.
   intros EN. rewrite nth_error_app1; auto. eapply nth_error_lt; eauto.
 Qed.
 
-Lemma step_frame h fam k o h' fam' r i g tg X :
-  wf h fam -> nth_error fam i = Some (g, tg, X) -> step (h, fam) (k, o) = ((h', fam'), r) ->
+Lemma step_plain_frame h fam k o h' fam' r i g tg X :
+  wf h fam -> nth_error fam i = Some (g, tg, X) -> step_plain (h, fam) (k, o) = ((h', fam'), r) ->
   (forall gk tk Xk, nth_error fam k = Some (gk, tk, Xk) -> gk <> g) ->
   same_on (hgro h) (hgro h') (gro_locs X).
 Proof.
-  intros [W1 W2] EN ES Hav. unfold step in ES. simpl in ES.
+  intros [W1 W2] EN ES Hav. unfold step_plain in ES. simpl in ES.
   destruct (nth_error fam k) as [[[gk tk] Xk]|] eqn:ENk.
   2:{ inversion ES; subst. intros l _; reflexivity. }
   specialize (Hav _ _ _ eq_refl).
@@ -433,12 +433,12 @@ Proof.
     intros l Hl; apply F; auto; intros Hin; eapply D; eauto.
 Qed.
 
-Lemma step_frame_top h fam k o h' fam' r i g tg X :
-  wf h fam -> nth_error fam i = Some (g, tg, X) -> step (h, fam) (k, o) = ((h', fam'), r) ->
+Lemma step_plain_frame_top h fam k o h' fam' r i g tg X :
+  wf h fam -> nth_error fam i = Some (g, tg, X) -> step_plain (h, fam) (k, o) = ((h', fam'), r) ->
   (forall gk tk Xk, nth_error fam k = Some (gk, tk, Xk) -> tk <> tg) ->
   same_on (htop h) (htop h') (top_locs X) /\ same_on (hmt h) (hmt h') (mt_locs X).
 Proof.
-  intros [W1 W2] EN ES Hav. unfold step in ES. simpl in ES.
+  intros [W1 W2] EN ES Hav. unfold step_plain in ES. simpl in ES.
   destruct (nth_error fam k) as [[[gk tk] Xk]|] eqn:ENk.
   2:{ inversion ES; subst. split; intros l _; reflexivity. }
   specialize (Hav _ _ _ eq_refl).
@@ -448,6 +448,210 @@ Proof.
   destruct (exec Xk o h) as [h1 [[[kind Y]|]|err]] eqn:EX; inversion ES; subst; simpl in F1, F2;
     split; intros l Hl; first [apply F1 | apply F2]; auto; intros Hin;
     first [eapply D1; solve [eauto] | eapply D2; solve [eauto]].
+Qed.
+
+(* ------------------------------------------------------------------ Alignment setters *)
+Lemma ro_ali_get l : ro (@ali_get T l). Proof. intros h; reflexivity. Qed.
+Lemma ro_eq_loop la : forall lb, ro (@eq_loop T la lb).
+Proof.
+  induction la as [|[ta ga] ra IH]; intros lb; simpl; [apply ro_ret|].
+  destruct lb as [|[tb gb] rb]; [apply ro_ret|].
+  apply ro_bind; [apply ro_view_check|]; intros _. apply ro_bind; [apply ro_view_check|]; intros _.
+  apply ro_bind; [apply ro_gro_get|]; intros. apply ro_bind; [apply ro_gro_get|]; intros.
+  apply ro_bind; [apply ro_top_get|]; intros. apply ro_bind; [apply ro_top_get|]; intros.
+  destruct (atom_eqb _ _ _ _); [apply IH | apply ro_ret].
+Qed.
+Lemma ro_mol_eq A B : ro (@mol_eq T A B).
+Proof.
+  unfold mol_eq. apply ro_bind; [apply ro_mt_get|]; intros. apply ro_bind; [apply ro_mt_get|]; intros.
+  destruct (negb _); [apply ro_ret|]. destruct (negb _); [apply ro_ret|]. apply ro_eq_loop.
+Qed.
+
+Lemma ali_set_ok a c (h h' : heap) u : ali_set a c h = (h', Ok u) ->
+  hgro h' = hgro h /\ htop h' = htop h /\ hmt h' = hmt h.
+Proof.
+  unfold ali_set. destruct (nth_error (hali h) a); intros E; inversion E; subst; simpl; auto.
+Qed.
+
+(* what `ali.start = m` stores and hands back: a molecule on m's topology with freshly allocated
+   coordinate atoms - in every branch that does not raise *)
+Lemma ali_assign_spec a side (m : mol) (h h' : heap) Y :
+  ali_assign a side m h = (h', Ok Y) ->
+  exists rs', Y = HM (fst (fst m)) (snd (fst m)) rs' /\
+              fresh_in (length (hgro h)) (length (hgro h')) (concat rs').
+Proof.
+  unfold ali_assign. intros E.
+  apply mbind_ok in E. destruct E as (h1 & c & E1 & E). apply ro_eq in E1; [|apply ro_ali_get]. subst h1.
+  apply mbind_ok in E. destruct E as (h1 & ok & E1 & E).
+  assert (h1 = h).
+  { destruct (side_get side c); [destruct (side_get (negb side) c)|];
+      (eapply ro_eq; [|exact E1]); first [apply ro_mol_eq | apply ro_ret]. }
+  subst h1. destruct ok; [|unfold fail in E; discriminate E].
+  apply mbind_ok in E. destruct E as (h2 & Y' & E2 & E).
+  apply mol_init_spec in E2. destruct E2 as (rs' & -> & F).
+  apply mbind_ok in E. destruct E as (h3 & u & E3 & E). inversion E; subst; clear E.
+  apply ali_set_ok in E3. destruct E3 as (Eg & _). rewrite Eg. eauto.
+Qed.
+
+Lemma wf_le3 h h' fam : wf h fam -> le3 h h' -> wf h' fam.
+Proof.
+  intros [W1 W2] L. split; auto.
+  intros i g tg X EN. destruct (W1 _ _ _ _ EN) as (V & a & b). splits; auto. eapply valid_le3; eauto.
+Qed.
+
+(* appending a handle with fresh coordinate atoms that shares the topology of an existing entry *)
+Lemma wf_push_copy h h' fam j gj tj Xj (Y : handle) :
+  wf h fam -> le3 h h' -> nth_error fam j = Some (gj, tj, Xj) -> valid h' Y ->
+  fresh_in (length (hgro h)) (length (hgro h')) (gro_locs Y) ->
+  incl (top_locs Y) (top_locs Xj) -> incl (mt_locs Y) (mt_locs Xj) ->
+  wf h' (fam ++ [(length fam, tj, Y)]).
+Proof.
+  intros [W1 W2] L ENj VY F I1 I2.
+  destruct (W1 _ _ _ _ ENj) as (_ & _ & tjl).
+  assert (NewOld : forall i gi ti Xi, nth_error fam i = Some (gi, ti, Xi) ->
+            disj (gro_locs Y) (gro_locs Xi) /\
+            (tj <> ti -> disj (top_locs Y) (top_locs Xi) /\ disj (mt_locs Y) (mt_locs Xi))).
+  { intros i gi ti Xi ENi. destruct (W1 _ _ _ _ ENi) as ((v1 & _) & _). split.
+    - eapply disj_fresh; eauto.
+    - intros Hne. destruct (W2 _ _ _ _ _ _ _ _ ENj ENi) as (_ & D). destruct (D Hne) as (D1 & D2).
+      split; eapply disj_incl; eauto. }
+  split.
+  - intros i g' tg' X' EN'. apply nth_error_snoc in EN'. rewrite app_length; simpl. destruct EN' as [EN'|[-> EN']].
+    + destruct (W1 _ _ _ _ EN') as (V & a & b). splits; try lia. eapply valid_le3; eauto.
+    + inversion EN'; subst. splits; auto; lia.
+  - intros i i' gi ti Xi gi' ti' Xi' ENi ENi'.
+    apply nth_error_snoc in ENi. apply nth_error_snoc in ENi'.
+    destruct ENi as [ENi|[-> ENi]]; destruct ENi' as [ENi'|[-> ENi']].
+    + eapply W2; eauto.
+    + inversion ENi'; subst. destruct (NewOld _ _ _ _ ENi) as (D1 & D2). split.
+      * intros _. apply disj_sym. auto.
+      * intros Hne. destruct D2 as (D21 & D22); [congruence|]. split; apply disj_sym; auto.
+    + inversion ENi; subst. destruct (NewOld _ _ _ _ ENi') as (D1 & D2). split; auto.
+    + inversion ENi; inversion ENi'; subst. split; intros; congruence.
+Qed.
+
+Lemma step_ali_wf (h : heap) (fam : family) k side oj h' fam' r :
+  wf h fam -> step_ali (h, fam) k side oj = ((h', fam'), r) -> wf h' fam'.
+Proof.
+  intros W. unfold step_ali.
+  destruct (nth_error fam k) as [[[g tg] X]|] eqn:EN; [|intros E; inversion E; subst; auto].
+  destruct X; try (intros E; inversion E; subst; auto; fail).
+  destruct oj as [j|].
+  - destruct (nth_error fam j) as [[[gj tj] Xj]|] eqn:ENj; [|intros E; inversion E; subst; auto].
+    destruct Xj as [| | |mt ts rs| |]; try (intros E; inversion E; subst; auto; fail).
+    destruct (ali_assign a side (mt, ts, rs) h) as [h1 [Y|e]] eqn:EA; intros E; inversion E; subst; clear E;
+      pose proof (framed_le3 _ _ _ _ _ _ _ (framed_ali_assign allp allp allp a side (mt, ts, rs)) EA) as L.
+    + apply ali_assign_spec in EA. destruct EA as (rs' & -> & F). simpl in *.
+      destruct W as [W1 W2]. destruct (W1 _ _ _ _ ENj) as ((_ & v2 & v3) & _).
+      eapply wf_push_copy; eauto; try apply incl_refl; [split; auto|].
+      unfold valid; simpl. destruct L as (l1 & l2 & l3). splits.
+      * intros l Hl. apply F in Hl. lia.
+      * intros l Hl. apply v2 in Hl. lia.
+      * intros l Hl. apply v3 in Hl. lia.
+    + eapply wf_le3; eauto.
+  - destruct (ali_clear a side h) as [h1 r1] eqn:EC. intros E; inversion E; subst; clear E.
+    eapply wf_le3; eauto. eapply framed_le3; [apply (framed_ali_clear allp allp allp a side) | exact EC].
+Qed.
+
+Lemma step_ali_keeps_entry (h : heap) (fam : family) k side oj h' fam' r i e :
+  step_ali (h, fam) k side oj = ((h', fam'), r) -> nth_error fam i = Some e -> nth_error fam' i = Some e.
+Proof.
+  unfold step_ali.
+  destruct (nth_error fam k) as [[[g tg] X]|]; [|intros E; inversion E; subst; auto].
+  destruct X; try (intros E; inversion E; subst; auto; fail).
+  destruct oj as [j|].
+  - destruct (nth_error fam j) as [[[gj tj] Xj]|]; [|intros E; inversion E; subst; auto].
+    destruct Xj as [| | |mt ts rs| |]; try (intros E; inversion E; subst; auto; fail).
+    destruct (ali_assign a side (mt, ts, rs) h) as [h1 [Y|err]]; intros E; inversion E; subst; auto.
+    intros EN. rewrite nth_error_app1; auto. eapply nth_error_lt; eauto.
+  - destruct (ali_clear a side h) as [h1 r1]. intros E; inversion E; subst; auto.
+Qed.
+
+Definition nonep : loc -> Prop := fun _ => False.
+
+(* an assignment to an Alignment end changes no coordinate atom, topology atom or name cell that existed *)
+Lemma step_ali_ext (h : heap) (fam : family) k side oj h' fam' r :
+  step_ali (h, fam) k side oj = ((h', fam'), r) -> ext nonep nonep nonep h h'.
+Proof.
+  unfold step_ali.
+  destruct (nth_error fam k) as [[[g tg] X]|]; [|intros E; inversion E; subst; apply ext_refl].
+  destruct X; try (intros E; inversion E; subst; apply ext_refl; fail).
+  destruct oj as [j|].
+  - destruct (nth_error fam j) as [[[gj tj] Xj]|]; [|intros E; inversion E; subst; apply ext_refl].
+    destruct Xj as [| | |mt ts rs| |]; try (intros E; inversion E; subst; apply ext_refl; fail).
+    pose proof (framed_ali_assign nonep nonep nonep a side (mt, ts, rs) h) as F.
+    destruct (ali_assign a side (mt, ts, rs) h) as [h1 [Y|err]]; intros E; inversion E; subst; exact F.
+  - pose proof (framed_ali_clear nonep nonep nonep a side h) as F.
+    destruct (ali_clear a side h) as [h1 r1]. intros E; inversion E; subst; exact F.
+Qed.
+
+(* ------------------------------------------------------------------ the two kinds of step together *)
+Lemma step_cases (st : heap * family) ko :
+  (exists side oj, snd ko = OAliSet side oj /\ step st ko = step_ali st (fst ko) side oj) \/
+  step st ko = step_plain st ko.
+Proof. unfold step. destruct (snd ko); auto. left; eauto. Qed.
+
+Lemma step_wf h fam ko h' fam' r : wf h fam -> step (h, fam) ko = ((h', fam'), r) -> wf h' fam'.
+Proof.
+  intros W E. destruct (step_cases (h, fam) ko) as [(side & oj & _ & Es)|Es]; rewrite Es in E.
+  - eapply step_ali_wf; eauto.
+  - eapply step_plain_wf; eauto.
+Qed.
+
+Lemma step_keeps_entry h fam ko h' fam' r i e :
+  step (h, fam) ko = ((h', fam'), r) -> nth_error fam i = Some e -> nth_error fam' i = Some e.
+Proof.
+  intros E. destruct (step_cases (h, fam) ko) as [(side & oj & _ & Es)|Es]; rewrite Es in E.
+  - eapply step_ali_keeps_entry; eauto.
+  - eapply step_plain_keeps_entry; eauto.
+Qed.
+
+Lemma step_frame h fam k o h' fam' r i g tg X :
+  wf h fam -> nth_error fam i = Some (g, tg, X) -> step (h, fam) (k, o) = ((h', fam'), r) ->
+  (forall gk tk Xk, nth_error fam k = Some (gk, tk, Xk) -> gk <> g) ->
+  same_on (hgro h) (hgro h') (gro_locs X).
+Proof.
+  intros W EN E Hav. destruct (step_cases (h, fam) (k, o)) as [(side & oj & _ & Es)|Es]; rewrite Es in E.
+  - apply step_ali_ext in E. destruct E as (_ & _ & _ & F & _).
+    destruct W as [W1 _]. destruct (W1 _ _ _ _ EN) as ((v1 & _) & _).
+    intros l Hl. apply F; auto.
+  - eapply step_plain_frame; eauto.
+Qed.
+
+Lemma step_frame_top h fam k o h' fam' r i g tg X :
+  wf h fam -> nth_error fam i = Some (g, tg, X) -> step (h, fam) (k, o) = ((h', fam'), r) ->
+  (forall gk tk Xk, nth_error fam k = Some (gk, tk, Xk) -> tk <> tg) ->
+  same_on (htop h) (htop h') (top_locs X) /\ same_on (hmt h) (hmt h') (mt_locs X).
+Proof.
+  intros W EN E Hav. destruct (step_cases (h, fam) (k, o)) as [(side & oj & _ & Es)|Es]; rewrite Es in E.
+  - apply step_ali_ext in E. destruct E as (_ & _ & _ & _ & F1 & F2).
+    destruct W as [W1 _]. destruct (W1 _ _ _ _ EN) as ((_ & v2 & v3) & _).
+    split; intros l Hl; [apply F1 | apply F2]; auto.
+  - eapply step_plain_frame_top; eauto.
+Qed.
+
+(* `ali.start = fam[j]` / `ali.end = fam[j]` that does not raise - first assignment, or re-assignment of
+   an equal molecule when both ends are set - appends the stored molecule as a handle of a NEW coordinate
+   group on fam[j]'s topology: the stored molecule and the molecule passed in are isolated from each
+   other in both directions by `isolation` *)
+Theorem ali_assign_new_group : forall (h : heap) (fam : family) k side j h1 fam1,
+  wf h fam -> step (h, fam) (k, OAliSet side (Some j)) = ((h1, fam1), Ok tt) ->
+  exists gj tj mt ts rs rs',
+    nth_error fam j = Some (gj, tj, HM mt ts rs) /\
+    fam1 = fam ++ [(length fam, tj, HM mt ts rs')] /\ wf h1 fam1 /\ length fam <> gj /\
+    fresh_in (length (hgro h)) (length (hgro h1)) (concat rs').
+Proof.
+  intros h fam k side j h1 fam1 W ES.
+  pose proof (step_wf _ _ _ _ _ _ W ES) as W1.
+  unfold step in ES. simpl in ES. unfold step_ali in ES.
+  destruct (nth_error fam k) as [[[g tg] X]|]; [|inversion ES].
+  destruct X; try (inversion ES; fail).
+  destruct (nth_error fam j) as [[[gj tj] Xj]|] eqn:ENj; [|inversion ES].
+  destruct Xj as [| | |mt ts rs| |]; try (inversion ES; fail).
+  destruct (ali_assign a side (mt, ts, rs) h) as [h' [Y|e]] eqn:EA; inversion ES; subst; clear ES.
+  apply ali_assign_spec in EA. destruct EA as (rs' & -> & F). simpl in *.
+  destruct W as [Wa _]. destruct (Wa _ _ _ _ ENj) as (_ & gl & _).
+  exists gj, tj, mt, ts, rs, rs'. splits; auto. lia.
 Qed.
 
 (* ------------------------------------------------------------------ whole runs *)
@@ -519,6 +723,7 @@ Proof.
   - destruct Hr as [<-|[]]; auto.
   - destruct Hr as [<-|[]]; auto.
   - apply in_concat; eauto.
+  - destruct Hr.
   - destruct Hr.
 Qed.
 
@@ -594,7 +799,10 @@ Proof.
   intros h fam i g tg X o h1 fam1 W EN Hk ES.
   pose proof (step_wf _ _ _ _ _ _ W ES) as W1.
   destruct W as [Wa Wb]. destruct (Wa _ _ _ _ EN) as (_ & gl & tgl).
-  unfold step in ES. simpl in ES. rewrite EN in ES.
+  assert (ES' : step_plain (h, fam) (i, o) = ((h1, fam1), Ok tt)).
+  { destruct (step_cases (h, fam) (i, o)) as [(side & oj & Eo & _)|<-]; auto. simpl in Eo. subst o. simpl in Hk. congruence. }
+  clear ES. rename ES' into ES.
+  unfold step_plain in ES. simpl in ES. rewrite EN in ES.
   destruct (exec X o h) as [h' [r|e]] eqn:EX; [|inversion ES].
   destruct (exec_copylike_some _ _ _ _ _ Hk EX) as (Y & ->).
   pose proof (exec_result _ _ _ _ _ _ EX) as (_ & RS).
